@@ -76,10 +76,10 @@ def run(tier, replay=None):
            "parser_hypothesis_failures": len(hyp_fail),
            "exhaustive": False}
     return ck.finish(cov, assumptions=[
-        "model Encoding/Model.v is hand-written from http/encoding.go (RequestDecoder, ResponseEncoder, SetContentType, ResponseDecoder, RequestEncoder, text/unsupported codecs), http/error.go StatusCode, pkg/error.go UnsupportedMediaTypeError; tied by evaluating it inside Coq on every distinct case the real code ran, with the real parser's logged answers as the oracle",
+        "model Encoding/Model.v is hand-written from http/encoding.go (RequestDecoder, ResponseEncoder, SetContentType, ResponseDecoder, RequestEncoder, ErrorEncoder, text/unsupported codecs) plus a writer that freezes status and headers at the first WriteHeader, http/error.go StatusCode, pkg/error.go UnsupportedMediaTypeError; tied by evaluating it inside Coq on every distinct case the real code ran, with the real parser's logged answers as the oracle",
         "mime.ParseMediaType is an oracle; the round-trip theorems assume parser_stable, parser_fixes_supported (and parser_keeps_suffix for pre-set headers); each is tested on every logged answer of the real parser (%s answers this run, %d failures)" % (extra.get("parser_answers_logged"), len(hyp_fail)),
         "encoding/json, encoding/xml, encoding/gob are oracles (codec_roundtrip hypothesis); values are 12 fixed ones the codecs round-trip; xml refuses []byte (measured, passed to the model as data)",
         "a designed content type that mime.ParseMediaType rejects makes ResponseEncoder return a nil Encoder; outside the envelope, modelled (None) and compared, not a failure",
-        "headers are written to an httptest.ResponseRecorder / read from http.Response.Header; net/http wire validation of header values is not exercised"],
+        "every response-side observation is what the client reads: rec.Result() (status and headers frozen at the first WriteHeader/Write) for all cases, and a real httptest.Server + http.Client round trip for the error path, the fixed corpora and a quarter of the other cases whose header values net/http carries unchanged; header values net/http would rewrite (blanks at the ends, control bytes) are only observed through the recorder"],
         trusted_base=["harness/cmd/c15 (case generation, observation by dynamic type, Coq term printing, string interning)",
                       "Run.v comparison functions (PositiveMap string table, association-list oracle)"])
